@@ -2752,12 +2752,39 @@ impl<'a> CodeGenerator<'a> {
                     },
                 );
 
+                // Tail cases come in the order their patterns first appear in the `when`,
+                // not sorted by length, so pick them by length rather than by position.
+                let tail_case_len = |case: &CaseTest| match case {
+                    CaseTest::ListWithTail(i) => *i,
+                    _ => unreachable!(),
+                };
+
+                // Lists longer than every tested length are handled by the longest tail case.
                 let last_pattern = if tail_cases.is_empty() {
                     *default.as_ref().unwrap().clone()
                 } else {
-                    let tree = tail_cases.last().unwrap();
+                    let tree = tail_cases
+                        .iter()
+                        .max_by_key(|(case, _)| tail_case_len(case))
+                        .unwrap();
 
                     tree.1.clone()
+                };
+
+                // A list of exactly `index` elements is handled by the exact case if there
+                // is one, otherwise by the longest tail case it still fits in.
+                let find_case = |index: usize| {
+                    cases
+                        .iter()
+                        .find(|x| matches!(x.0, CaseTest::List(i) if i == index))
+                        .or_else(|| {
+                            tail_cases
+                                .iter()
+                                .filter(|(case, _)| tail_case_len(case) <= index)
+                                .max_by_key(|(case, _)| tail_case_len(case))
+                        })
+                        .cloned()
+                        .unwrap_or_else(|| (CaseTest::Wild, *default.as_ref().unwrap().clone()))
                 };
 
                 let builtins_for_pattern = builtins_path.merge(Builtins::new_from_list_case(
@@ -2779,18 +2806,7 @@ impl<'a> CodeGenerator<'a> {
                     (builtins_for_pattern, last_pattern),
                     |(mut builtins_for_pattern, acc), list_item| match list_item {
                         itertools::Position::First(index) | itertools::Position::Only(index) => {
-                            let (_, tree) = cases
-                                .iter()
-                                .chain(tail_cases.iter())
-                                .find(|x| match x.0 {
-                                    CaseTest::List(i) => i == index,
-                                    CaseTest::ListWithTail(i) => i <= index,
-                                    _ => unreachable!(),
-                                })
-                                .cloned()
-                                .unwrap_or_else(|| {
-                                    (CaseTest::Wild, *default.as_ref().unwrap().clone())
-                                });
+                            let (_, tree) = find_case(index);
 
                             let tail_name = if builtins_for_pattern.is_empty() {
                                 subject_name.clone()
@@ -2821,18 +2837,7 @@ impl<'a> CodeGenerator<'a> {
                         }
 
                         itertools::Position::Middle(index) | itertools::Position::Last(index) => {
-                            let (_, tree) = cases
-                                .iter()
-                                .chain(tail_cases.iter())
-                                .find(|x| match x.0 {
-                                    CaseTest::List(i) => i == index,
-                                    CaseTest::ListWithTail(i) => i <= index,
-                                    _ => unreachable!(),
-                                })
-                                .cloned()
-                                .unwrap_or_else(|| {
-                                    (CaseTest::Wild, *default.as_ref().unwrap().clone())
-                                });
+                            let (_, tree) = find_case(index);
 
                             let tail_name = if builtins_for_pattern.is_empty() {
                                 subject_name.clone()
